@@ -78,6 +78,8 @@ func runC07(c *core.Ctx) {
 	c.Rule("R6", "ChannelQueue wrapper shapes: Take/TakeWithTimeout map a closed channel to ErrQueueIsClosed via comma-ok, timeouts come from a select arm on time.After(timeout), Offer/Poll default arms return ErrQueueIsFull/ErrQueueIsEmpty, success arms return the value/nil", 6)
 	c.Rule("R7", "Count returns len(channel)+pool.Count() with both operands read under one hold of the queue lock", 1)
 	c.Rule("R8", "every lock a BufferedChannelQueue method takes is released in the same mode on every return path", 5)
+	c.Rule("R11", "no loader wake-up is discarded: every wake-up taken from loadWorkerCh is followed (unless the queue is found closed) by a loading pass over the overflow list before the next one is taken or the loader ends - a wake-up that is taken and dropped can be the one posted by the consumer that just made room, whose next Take then waits forever with items still parked", 1)
+	c07wakeups(c)
 	c.Assume = append(c.Assume, "Go channels are FIFO; the pool list is a correct deque when accessed under mutual exclusion (C06)")
 	li := core.ComputeLocks(p)
 	bq := p.Named(p.Fpgo, "BufferedChannelQueue")
@@ -962,4 +964,112 @@ func chanReceives(g *ssa.Function) bool {
 		}
 	})
 	return found
+}
+
+// c07wakeups (R11).
+func c07wakeups(c *core.Ctx) {
+	p := c.P
+	isWake := func(v ssa.Value) bool { return core.FieldKey(v) == "BufferedChannelQueue.loadWorkerCh" }
+	type consumer struct {
+		fn  *ssa.Function
+		ins ssa.Instruction
+	}
+	var cons []consumer
+	for _, f := range p.Funcs {
+		if !p.InRepo(f) {
+			continue
+		}
+		core.Instrs(f, func(ins ssa.Instruction) {
+			switch x := ins.(type) {
+			case *ssa.UnOp:
+				if x.Op == token.ARROW && isWake(chanOf(x.X)) {
+					cons = append(cons, consumer{f, ins})
+				}
+			case *ssa.Select:
+				for _, st := range x.States {
+					if st.Dir == types.RecvOnly && isWake(chanOf(st.Chan)) {
+						cons = append(cons, consumer{f, ins})
+					}
+				}
+			case *ssa.Call:
+				if len(x.Call.Args) > 0 && isWake(x.Call.Args[0]) {
+					if g := core.Callee(&x.Call); g != nil && chanReceives(g) {
+						cons = append(cons, consumer{f, ins})
+					}
+				}
+			}
+		})
+	}
+	// a loading pass: a read of the overflow list's size / head (pool.Count, pool.Poll), here or in a function called
+	reach := map[*ssa.Function]bool{}
+	var isPass func(g *ssa.Function, depth int) bool
+	isPoolRead := func(ins ssa.Instruction) bool {
+		call, ok := ins.(*ssa.Call)
+		if !ok || len(call.Call.Args) == 0 || core.FieldKey(call.Call.Args[0]) != "BufferedChannelQueue.pool" {
+			return false
+		}
+		g := core.Callee(&call.Call)
+		return g != nil && (g.Name() == "Count" || g.Name() == "Poll" || g.Name() == "Shift")
+	}
+	isPass = func(g *ssa.Function, depth int) bool {
+		if g == nil || !p.InRepo(g) || len(g.Blocks) == 0 || depth > 3 {
+			return false
+		}
+		if v, ok := reach[g]; ok {
+			return v
+		}
+		reach[g] = false
+		found := false
+		core.Instrs(g, func(ins ssa.Instruction) {
+			if isPoolRead(ins) {
+				found = true
+			}
+			if call, ok := ins.(*ssa.Call); ok && isPass(core.Callee(&call.Call), depth+1) {
+				found = true
+			}
+		})
+		reach[g] = found
+		return found
+	}
+	if len(cons) == 0 {
+		c.Unknown("R11", "loader-wakeups", "-", "no consumer of the loader wake-up channel found")
+		return
+	}
+	isCons := map[ssa.Instruction]bool{}
+	for _, k := range cons {
+		isCons[k.ins] = true
+	}
+	for i, k := range cons {
+		c.Analysed(core.FuncName(k.fn))
+		key := fmt.Sprintf("%s/take#%d", core.FuncName(k.fn), i+1)
+		base := ""
+		if len(k.fn.Params) > 0 {
+			base = k.fn.Params[0].Name()
+		}
+		closed := flagEdge(p, base, "isClosed", true)
+		skip := func(b, s2 *ssa.BasicBlock) bool {
+			if closed(b, s2) {
+				return true
+			}
+			// the channel-closed edge of `_, ok := <-ch` (the end of `for range ch`)
+			if iff, ok := b.Instrs[len(b.Instrs)-1].(*ssa.If); ok && len(b.Succs) == 2 {
+				if ex, isE := iff.Cond.(*ssa.Extract); isE && ex.Index == 1 && ex.Tuple == k.ins.(ssa.Value) && b.Succs[1] == s2 {
+					return true
+				}
+			}
+			return false
+		}
+		ok, bad := core.MustPassBefore(k.ins, func(ins ssa.Instruction) bool {
+			if isPoolRead(ins) {
+				return true
+			}
+			call, isC := ins.(*ssa.Call)
+			return isC && isPass(core.Callee(&call.Call), 0)
+		}, func(ins ssa.Instruction) bool { return isCons[ins] }, skip)
+		where := ""
+		if bad != nil {
+			where = p.InstrPos(bad)
+		}
+		c.Check(ok, "R11", key, p.InstrPos(k.ins), "the wake-up taken here is followed by a loading pass before the next take / the end of the loader", "a loader wake-up taken here can be dropped: "+where+" is reached without a loading pass - it may be the one posted by the consumer that just made room in the channel, whose next Take then waits forever although items are parked in the overflow list")
+	}
 }
